@@ -91,3 +91,14 @@ package dmarc
 //@ func NewVerifier
 //@   prop C03 C06
 //@   ensures result != nil && fresh(result)
+
+// ---- C07: the From-header domain ----
+// "a header with no or several author addresses never obtains a pass": ExtractFromDomain refuses a header that does not
+// have exactly one From field, or whose From field does not hold exactly one address, and otherwise returns the domain
+// of that address.
+//@ import textproto "github.com/emersion/go-message/textproto"
+//@ func ExtractFromDomain
+//@   prop C07
+//@   loop 0 invariant fields != nil && fieldsCount(fields) == hdrFieldCount(hdr, "From") && fieldAt(fields, 0) == hdrGet(hdr, "From") && fields.fpos == fromCount && fresh(refOf(fields)) && 0 <= fromCount && fromCount <= 1 && fromCount <= fieldsCount(fields) && (fromCount == 1 ==> firstFrom == fieldAt(fields, 0)) && (fromCount == 0 ==> firstFrom == "")
+//@   ensures hdrFieldCount(hdr, "From") != 1 ==> result1 != nil
+//@   ensures result1 == nil ==> addrListErr(hdrGet(hdr, "From")) == nil && len(addrList(hdrGet(hdr, "From"))) == 1 && splitOK(addrList(hdrGet(hdr, "From"))[0].Address) && result0 == splitDom(addrList(hdrGet(hdr, "From"))[0].Address)
